@@ -307,8 +307,10 @@ def random_history(tt_mod, rng, nsteps):
         # prefer in-place calls after producers now and then
         ev = rng.choice(cands)
         try:
-            new, res = perform(tt_mod, objs, ev)
-        except Exception as e:      # an admissible call that raises is a violation; the trace ends here
+            from .common import watchdog
+            with watchdog():
+                new, res = perform(tt_mod, objs, ev)
+        except Exception as e:      # an admissible call that raises (or does not return) is a violation; the trace ends here
             ev['raised'] = '%s: %s' % (type(e).__name__, e)
             events.append(ev)
             break
